@@ -12,15 +12,12 @@ The one hypothesis, `NoCaseDupDemands` (no two user-demand keys equal up to case
 table and is established for every shipped log table in `shipped_side_conditions`, together with the other table
 facts the theorems use (device-table keys distinct, sensor keys disjoint from device ids, ...).
 
-The threaded twin de-duplicates with `set(..)`: its iteration order is not determined by the inputs (it follows string
-hashing).  `SyncOrder` captures exactly that: any arrangement of the same devices.  Hence for the threaded facade only
-the multiset statement `sync_same_as_async_partial` holds; the clause "in table order" is finding D10:
-
-  -- FULL STATEMENT (false while `Generated.syncDedup = .hashSet`):
-  -- theorem sync_same_as_async (ho : SyncOrder w order) : scanWith order w = scanOutputs w
-
-`sync_same_as_async_if_order_preserving` proves it under the hypothesis that the source uses an order preserving de-dup;
-once the fix lands the generated `syncDedup` becomes `.orderPreserving` and the hypothesis is discharged by `rfl`.
+The threaded twin `GeckoFacade.scan_outputs` de-duplicates order-preservingly too (since `fix:` 7fbeafc; before that it
+used `set(..)`, whose iteration order follows string hashing - former finding D10).  Which de-duplication each facade
+uses is regenerated from the source on every run (`Generated.asyncDedup`, `Generated.syncDedup`); `SyncOrder` states what
+iteration orders the threaded scan may use for the regenerated kind, and `sync_same_as_async` is the full statement:
+the threaded scan IS the async scan.  Should `set(..)` come back, `sync_same_as_async` stops building and the search
+shows the order difference on the real code under different PYTHONHASHSEED values.
 -/
 import GeckoModel.Proofs.InventoryLemmas
 import GeckoModel.Generated.PacksIndex
@@ -282,35 +279,58 @@ theorem syncOrder_perm (w : Wiring) (order : List String) (ho : SyncOrder w orde
   · exact ho
   · rw [ho]
 
-/-- **sync_same_as_async_partial** (the order clause is D10): whatever order the threaded facade's `set(..)` yields, it
-lists the same pumps / blowers / lights / user devices as the async facade AS MULTISETS, the same sensors, binary sensors
-and eco switch, and its automation keys are distinct too -/
-theorem sync_same_as_async_partial (w : Wiring) (hn : NoCaseDupDemands w.userDemands) (order : List String) (ho : SyncOrder w order) :
-    (scanWith order w).userDevices.Perm (scanOutputs w).userDevices ∧
-    (scanWith order w).pumps.Perm (scanOutputs w).pumps ∧
-    (scanWith order w).blowers.Perm (scanOutputs w).blowers ∧
-    (scanWith order w).lights.Perm (scanOutputs w).lights ∧
-    (scanWith order w).sensors = (scanOutputs w).sensors ∧
-    (scanWith order w).binarySensors = (scanOutputs w).binarySensors ∧
-    (scanWith order w).eco = (scanOutputs w).eco ∧
-    ((presentEntries syncAutomationOrder (scanWith order w)).map (·.key)).Nodup := by
-  have hp := syncOrder_perm w order ho
-  have hu : (handledOf order w).Perm (handledOf w.actualDevices w) := (hp.flatMap_right _).filter _
-  refine ⟨hu, hu.filterMap _, hu.filterMap _, hu.filterMap _, rfl, rfl, rfl, ?_⟩
-  have hH : ((scanWith order w).userDevices.map (·.device)).Nodup :=
-    ((hu.map _).nodup_iff).2 (inventory_nodup w hn)
-  rw [present_sync]
-  have := (keys_nodup_of w order hH).2
-  cases h : (scanWith order w).eco <;> simp_all [devEntry]
+/-- the threaded facade de-duplicates order-preservingly (syntactic fact regenerated from the source) -/
+theorem sync_order_preserving : syncDedup = .orderPreserving := by decide
 
-/-- the full statement for the threaded facade, under the hypothesis that its source uses the order preserving de-dup
-(false today: `syncDedup = .hashSet`, finding D10; becomes `rfl` once `set(..)` is replaced by `dict.fromkeys`) -/
+/-- the full statement for the threaded facade under the hypothesis that its source uses the order preserving de-dup -/
 theorem sync_same_as_async_if_order_preserving (hk : syncDedup = .orderPreserving) (w : Wiring) (order : List String)
     (ho : SyncOrder w order) : scanWith order w = scanOutputs w := by
   unfold SyncOrder at ho
   rw [hk] at ho
   simp only at ho
   rw [ho]; rfl
+
+/-- **sync_same_as_async** (full statement): whatever iteration order the threaded `GeckoFacade.scan_outputs` may use, its
+scan is the async facade's scan - the same user devices, pumps, blowers, lights IN THE SAME (table) ORDER, the same
+sensors, binary sensors and eco switch.  Hence every theorem above about `scanOutputs` holds for the threaded facade. -/
+theorem sync_same_as_async (w : Wiring) (order : List String) (ho : SyncOrder w order) : scanWith order w = scanOutputs w :=
+  sync_same_as_async_if_order_preserving sync_order_preserving w order ho
+
+/-- the threaded facade composes `all_automation_devices` differently (no reminders object): its automation keys and unique
+ids are distinct too, and looking an object up by its key returns it -/
+theorem sync_keys_unique_and_lookup (w : Wiring) (hn : NoCaseDupDemands w.userDemands) (order : List String) (ho : SyncOrder w order)
+    (parent : String) :
+    ((presentEntries syncAutomationOrder (scanWith order w)).map (·.key)).Nodup ∧
+    ((presentEntries syncAutomationOrder (scanWith order w)).map (fun e => uniqueId parent e.key)).Nodup ∧
+    ∀ e ∈ presentEntries syncAutomationOrder (scanWith order w), getDevice syncAutomationOrder (scanWith order w) e.key = .ok (some e) := by
+  have hp := syncOrder_perm w order ho
+  have hu : (handledOf order w).Perm (handledOf w.actualDevices w) := (hp.flatMap_right _).filter _
+  have hH : ((scanWith order w).userDevices.map (·.device)).Nodup :=
+    ((hu.map _).nodup_iff).2 (inventory_nodup w hn)
+  have hk : ((presentEntries syncAutomationOrder (scanWith order w)).map (·.key)).Nodup := by
+    rw [present_sync]
+    have := (keys_nodup_of w order hH).2
+    cases h : (scanWith order w).eco <;> simp_all [devEntry]
+  refine ⟨hk, ?_, ?_⟩
+  · have : (presentEntries syncAutomationOrder (scanWith order w)).map (fun e => uniqueId parent e.key) =
+        ((presentEntries syncAutomationOrder (scanWith order w)).map (·.key)).map (uniqueId parent) := by
+      rw [List.map_map]; rfl
+    rw [this]
+    exact nodup_map_of_inj _ (uniqueId_inj parent) _ hk
+  · intro e he
+    unfold getDevice
+    rw [allAutomation_sync]
+    rw [present_sync] at he hk
+    cases hec : (scanWith order w).eco with
+    | none =>
+      rw [hec] at he hk
+      simp only [Option.map_none, Option.toList_none, List.append_nil] at he hk ⊢
+      exact getDeviceIn_prefix _ _ hk e he
+    | some d =>
+      rw [hec] at he hk
+      simp only [Option.map_some, Option.toList_some] at he hk ⊢
+      have := getDeviceIn_prefix (syncObjects (scanWith order w) ++ [devEntry "eco_mode" d]) [] hk e he
+      simpa using this
 
 /-- the async facade does use the order preserving de-dup (syntactic fact regenerated from the source) -/
 theorem async_order_preserving : asyncDedup = .orderPreserving := by decide
@@ -379,19 +399,11 @@ example : NoCaseDupDemands exampleWiring.userDemands := noCaseDup_of_B _ (by dec
 example : (scanOutputs exampleWiring).userDevices.map (·.device) = ["P1", "LI"] := by decide +kernel
 example : (scanOutputs exampleWiring).pumps.map (·.key) = ["P1"] ∧ (scanOutputs exampleWiring).lights.map (·.stateKey) = ["UdLi"] := by
   decide +kernel
-/-- the table order is always an admissible order of the threaded scan … -/
+/-- the table order is an admissible order of the threaded scan (non-vacuity of `SyncOrder`) -/
 example : SyncOrder exampleWiring exampleWiring.actualDevices := by
   unfold SyncOrder
   split
   · exact List.Perm.refl _
   · rfl
-
-/-- … and while the threaded facade de-duplicates with `set(..)`, so is any other arrangement (D10) -/
-example (h : syncDedup = .hashSet) : SyncOrder exampleWiring ["L120", "P1", "LI"] := by
-  unfold SyncOrder
-  rw [h]
-  have : exampleWiring.actualDevices = ["P1", "L120", "LI"] := by decide +kernel
-  rw [this]
-  exact List.Perm.swap _ _ _
 
 end GeckoModel.C12
